@@ -87,6 +87,30 @@ def functional_recipes(tier='quick'):
     return R
 
 
+
+# ---- space axes of the functional / misc groups -------------------------------------------------------------------------
+# These groups are consumed by C06 as well (every nonlinear recipe that offers a derivative).  Two kinds of spaces are kept
+# out of them because they would make C06 raise alarms that do not contradict ITS property:
+#  * explicitly array-weighted DISCRETISED spaces: repr() of such a space raises AttributeError (DiscretizedSpace.__repr__
+#    reads weighting.const), which turns every NotImplementedError / OpNotImplementedError whose message formats the
+#    operator into an AttributeError ("no derivative" would look like "derivative raised").  The linear catalogue keeps
+#    these spaces (C05 / C03 report what is wrong on them); array weightings are covered here on tensor spaces.
+#  * single precision: the relational clause of C06 uses h = 2^-6 .. 2^-8, below float32 resolution.  Nonlinear
+#    single-precision recipes therefore carry the key 'via' (= how the operator is reached: 'single-precision-direct'),
+#    which C06 skips like the other 'via' forms; C03 / C10 treat them as any other recipe.
+def _no_discr_array(c):
+    return not (c.get('kind') == 'discr' and c.get('weighting') == 'array')
+
+
+def _combos(tier, opt_axes, sp_axes, valid=None, cap=400):
+    from .linops import _combos as lin_combos
+    return lin_combos(tier, opt_axes, sp_axes, lambda c: _no_discr_array(c) and (valid is None or valid(c)), cap)
+
+
+def _single(c):
+    return {'via': 'single-precision-direct'} if c.get('prec') == 'single' else {}
+
+
 DERIVED_ALL = ('self', 'gradient', 'proximal', 'convex_conj', 'convex_conj.proximal', 'convex_conj.gradient')
 # functionals on single-precision or complex spaces are listed through their proximals only: C06 consumes the forms
 # 'self' / 'gradient' / 'convex_conj(.gradient)' with central differences at h = 2^-6..2^-8, which are below float32
@@ -94,8 +118,19 @@ DERIVED_ALL = ('self', 'gradient', 'proximal', 'convex_conj', 'convex_conj.proxi
 DERIVED_PROX = ('proximal', 'convex_conj.proximal')
 
 
-def _add_functional(add, name, opts, mk, kinds=DERIVED_ALL, sigma=0.5):
+_ROT = {}
+
+
+def _add_functional(add, name, opts, mk, kinds=DERIVED_ALL, sigma=0.5, tier='thorough'):
+    """thorough: every derived form of the functional ; quick: TWO derived forms per instance, rotating per family, so that
+    every (family, form) pair and - over the instances of a family - every (option value, form) pair is visited."""
     fam = 'Functional.' + name
+    kinds = list(kinds)
+    if tier == 'quick' and len(kinds) > 2:
+        k = _ROT.get(('q', fam), 0)
+        _ROT[('q', fam)] = k + 1
+        # the stride 5 is coprime to the number of forms (6, 4, 3, 2) and to the usual option-axis lengths
+        kinds = [kinds[(5 * k) % len(kinds)], kinds[(5 * k + 3) % len(kinds)]]
     for kind in kinds:
         o = dict(opts, derived=kind)
         if kind == 'self':
@@ -116,9 +151,15 @@ def wide_functional_recipes(tier, add):
     """Every Functional class x constructor options x spaces; derived functionals of derived functionals (depth 2)."""
     from collections import OrderedDict as OD
     from . import catutil as U
-    from .linops import _space_axes, _combos, _sp, _o
+    from .linops import _space_axes, _sp, _o
     S = odl.solvers
     vec, posvec = U.vec, U.posvec
+    _ROT.clear()
+    _af = globals()['_add_functional']
+
+    def _add_functional(*a, **kw):
+        kw.setdefault('tier', tier)
+        return _af(*a, **kw)
     real_axes = _space_axes(fields=('real',), precs=('double',))
     prox_axes = _space_axes()          # all spaces; single precision / complex ones are used through proximals only
 
@@ -284,10 +325,17 @@ def wide_functional_recipes(tier, add):
 
     # ---- derived functionals (depth 1) and derived functionals of derived functionals (depth 2)
     INNER = OD([('L1Norm', lambda sp: S.L1Norm(sp)), ('L2NormSquared', lambda sp: S.L2NormSquared(sp)), ('L2Norm', lambda sp: S.L2Norm(sp)),
-                ('KullbackLeibler', lambda sp: S.KullbackLeibler(sp, prior=posvec(sp))), ('Huber', lambda sp: S.Huber(sp, 0.5))])
+                # small prior: third derivatives ~ prior / x^3 stay small against the directional derivative at the fixed base
+                # points of C06 (the relative 1e-3 bound at h = 2^-8 needs |f'''| / |f'| <~ 400), whatever wrapper is around it
+                ('KullbackLeibler', lambda sp: S.KullbackLeibler(sp, prior=posvec(sp, (0.25, 0.125, 0.375, 0.1875, 0.3125)))),
+                # gamma far below every argument the wrappers produce (|arg| >= 0.15): no wrapper can put a base point of C06 on
+                # the kink |arg| = gamma (Huber with larger gamma, i.e. with its quadratic region, is listed directly above)
+                ('Huber', lambda sp: S.Huber(sp, 0.05))])
 
     def shift(sp):
-        return sp.one()
+        # small enough that the positive inputs of C03 (0.5 .. 2) and the base points of C06 (>= 0.6) stay well inside the domain
+        # of the Kullback-Leibler divergence also after two translations (>= 0.35: the pole of log at 0 is far)
+        return 0.125 * sp.one()
 
     def M32(sp):
         return odl.MatrixOperator(np.array([[1.0, 2.0, 0.0], [-1.0, 0.5, 3.0], [0.0, 1.0, 1.0]]), domain=sp, range=sp)
@@ -319,14 +367,31 @@ def wide_functional_recipes(tier, add):
         ('quotient', lambda f, sp: S.FunctionalQuotient(f, S.L2Norm(sp) + 1.0)),
         ('quotient-reversed', lambda f, sp: S.FunctionalQuotient(S.L2NormSquared(sp) + 1.0, f + 1.0)),
         ('infimal-convolution', lambda f, sp: S.InfimalConvolution(f, S.L2NormSquared(sp))),
-        ('bregman', lambda f, sp: S.BregmanDistance(f, posvec(sp), f.gradient(posvec(sp)))),
-        ('bregman-method', lambda f, sp: f.bregman(posvec(sp), f.gradient(posvec(sp)))),
+        # the Bregman distance is stationary at its point: keep the point (1/32) far from every argument the wrappers produce,
+        # a directional derivative that nearly vanishes cannot meet the relative bound of C06
+        ('bregman', lambda f, sp: S.BregmanDistance(f, sp.one() / 32, f.gradient(sp.one() / 32))),
+        ('bregman-method', lambda f, sp: f.bregman(sp.one() / 32, f.gradient(sp.one() / 32))),
         ('default-convex-conj', lambda f, sp: (f + S.L2NormSquared(sp)).convex_conj),
         ('convex-conj-of-convex-conj', lambda f, sp: f.convex_conj.convex_conj),
     ])
-    for c in _combos(tier, OD([('kind', ['rn']), ('d1', list(D1)), ('inner', list(INNER))]), real_axes):
+    # wrappers that evaluate the inner functional at non-positive arguments: outside the domain of the Kullback-Leibler
+    # divergence (value +inf; products / quotients of such values are inf or nan depending on the evaluation order)
+    LEAVES_POSITIVE = ('right-scaled-neg', 'right-scaled-zero', 'right-vector-mixed-sign')
+
+    def no_huber_on_array(c):
+        # element indexing on array-weighted spaces raises (KF-C20-5): Huber itself is listed above, not inside wrappers
+        if c['inner'] == 'KullbackLeibler' and (c.get('d1') in LEAVES_POSITIVE or c.get('outer') in LEAVES_POSITIVE):
+            return False
+        return not (c['inner'] == 'Huber' and c['weighting'] == 'array')
+    # the conjugate of the Kullback-Leibler divergence has a pole at 1: inside wrappers the generic base points of C06 may
+    # come arbitrarily close to it (a pole is outside the claim), so those wrappers are listed without their conjugates
+    NO_CC = ('self', 'gradient', 'proximal', 'convex_conj.proximal')
+
+    def kinds_in(c):
+        return NO_CC if c['inner'] == 'KullbackLeibler' else DERIVED_ALL
+    for c in _combos(tier, OD([('d1', list(D1)), ('inner', list(INNER))]), real_axes, no_huber_on_array):
         lab, sp = _sp(c)
-        _add_functional(add, c['d1'], _o(c, lab, 'inner'), lambda sp=sp, c=c: D1[c['d1']](INNER[c['inner']](sp), sp))
+        _add_functional(add, c['d1'], _o(c, lab, 'inner'), lambda sp=sp, c=c: D1[c['d1']](INNER[c['inner']](sp), sp), kinds_in(c))
     # proximal-only forms on single precision / complex spaces
     for c in _combos(tier, OD([('d1', ['left-scaled', 'right-scaled', 'right-vector', 'scalar-sum', 'translated', 'quadratic-perturb',
                                        'quadratic-perturb-linear-only', 'bregman']),
@@ -336,12 +401,17 @@ def wide_functional_recipes(tier, add):
         _add_functional(add, c['d1'], _o(c, lab, 'inner'), lambda sp=sp, c=c: D1[c['d1']](INNER[c['inner']](sp), sp), DERIVED_PROX)
     D2 = ['left-scaled', 'right-scaled', 'right-vector', 'sum', 'scalar-sum', 'translated', 'quadratic-perturb', 'quadratic-perturb-linear-only',
           'composition', 'composition-multiply', 'product', 'quotient', 'bregman', 'right-scaled-neg', 'left-scaled-zero']
+    def d2_ok(c):
+        # product(... Kullback-Leibler ...): large values, and at the fixed base point of C06 the directional derivative nearly
+        # cancels, so the relative 1e-3 bound at h = 2^-8 is out of reach although the differences converge with ratio 4 (conditioning
+        # of the test point, not a defect)
+        return no_huber_on_array(c) and not (c['outer'] == 'product' and c['inner'] == 'KullbackLeibler')
     for c in _combos(tier, OD([('outer', D2), ('d1', D2), ('inner', list(INNER))]),
-                     _space_axes(fields=('real',), precs=('double',), shapes=('1d', '2d'), bdrys=('False', 'asym'))):
+                     _space_axes(fields=('real',), precs=('double',), shapes=('1d', '2d'), bdrys=('False', 'asym')), d2_ok):
         lab, sp = _sp(c)
         o = _o(c, lab, 'inner')
         o['chain'] = c['outer'] + '(' + c['d1'] + ')'
-        _add_functional(add, 'depth2', o, lambda sp=sp, c=c: D1[c['outer']](D1[c['d1']](INNER[c['inner']](sp), sp), sp))
+        _add_functional(add, 'depth2', o, lambda sp=sp, c=c: D1[c['outer']](D1[c['d1']](INNER[c['inner']](sp), sp), sp), kinds_in(c))
     # simple_functional
     r3 = odl.rn(3)
     _add_functional(add, 'simple_functional', {'given': 'all'}, lambda: S.functional.simple_functional(
@@ -351,11 +421,16 @@ def wide_functional_recipes(tier, add):
         r3, fcall=lambda x: x.inner(x), grad=odl.ScalingOperator(r3, 2.0)), ('self', 'gradient'))
 
 
-def other_recipes():
+def other_recipes(tier='quick'):
     R = []
+    seen = set()
 
     def add(family, opts, fn):
-        R.append((family, opts, fn))
+        key = (family, tuple(sorted((k, str(v)) for k, v in opts.items())))
+        if key in seen:
+            return
+        seen.add(key)
+        R.append((family, dict(opts), fn))
     r3 = odl.rn(3)
     d1 = odl.uniform_discr(0, 1, 4)
     d2 = odl.uniform_discr([0, 0], [1, 1], [3, 4])
@@ -444,13 +519,192 @@ def other_recipes():
     add('proximal_const_func', {}, lambda: S.proximal_const_func(r3)(0.5))
     add('proximal_box_constraint', {}, lambda: S.proximal_box_constraint(r3, 0.0, 1.0)(0.5))
     add('proximal_nonnegativity', {}, lambda: S.proximal_nonnegativity(r3)(0.5))
+    other_recipes.n_first = len(R)
+    wide_other_recipes(tier, add)
     return R
+
+
+def wide_other_recipes(tier, add):
+    """Operators that live only in the call catalogue (no exact adjoint / no derivative clause): linear combination,
+    resampling, deformation, numerical differentiation, ray transform, ufunc operators, non-orthogonal wavelets and the
+    proximal factories - every constructor option with >= 2 values, crossed all-pairs with the space axes."""
+    from collections import OrderedDict as OD
+    from . import catutil as U
+    from . import proxcat
+    from .linops import _space_axes, _sp, _o
+    S = odl.solvers
+    vec, posvec = U.vec, U.posvec
+    # ---- LinCombOperator: scalars 0 / 1 / negative / general (complex)
+    AB = OD([('general', (2.0, -1.0)), ('zero-a', (0, 1.5)), ('zero-b', (-2.0, 0.0)), ('both-zero', (0.0, 0.0)), ('ones', (1, 1)),
+             ('one-neg-one', (1.0, -1.0)), ('complex', (1 - 2j, 0.5j))])
+    for c in _combos(tier, OD([('scalars', list(AB))]), _space_axes(), lambda c: c['scalars'] != 'complex' or c['field'] == 'complex'):
+        lab, sp = _sp(c)
+        add('LinCombOperator', _o(c, lab, 'scalars'), lambda sp=sp, ab=AB[c['scalars']]: odl.LinCombOperator(sp, *ab))
+    for form in ('power2', 'general', 'nested'):
+        add('LinCombOperator', {'space': 'pspace-' + form, 'scalars': 'general'},
+            lambda form=form: odl.LinCombOperator(U.mk_pspace(odl.rn(2), form), 2.0, -1.0))
+    # ---- Resampling: interpolation scheme (also per axis), direction, shapes, dtypes, nodes on the boundary
+    RS = {'1d': (4,), '2d': (2, 3)}
+    RT = {('1d', 'finer'): (8,), ('1d', 'coarser'): (2,), ('1d', 'same'): (4,), ('1d', 'non-multiple'): (5,),
+          ('2d', 'finer'): (4, 3), ('2d', 'coarser'): (1, 2), ('2d', 'same'): (2, 3), ('2d', 'mixed'): (3, 2)}
+
+    def rs_ok(c):
+        if (c['shape'], c['dir']) not in RT:
+            return False
+        return c['interp'] not in ('per-axis', 'per-axis-rev') or c['shape'] == '2d'
+    for c in _combos(tier, OD([('interp', ['nearest', 'linear', 'per-axis', 'per-axis-rev', 'tuple-same']),
+                               ('dir', ['finer', 'coarser', 'same', 'non-multiple', 'mixed']), ('range-bdry', ['same', 'other'])]),
+                     _space_axes(kinds=('discr',), shapes=('1d', '2d'), weightings=('none', 'const')), rs_ok):
+        lab, sp = _sp(c, shapes=RS)
+
+        def mk(sp=sp, c=c):
+            tgt = RT[(c['shape'], c['dir'])]
+            nob = c['bdry'] != 'False'
+            if c['range-bdry'] == 'other':
+                nob = not nob
+            ran = odl.uniform_discr(sp.min_pt, sp.max_pt, tgt, dtype=sp.dtype, nodes_on_bdry=nob)
+            itp = {'nearest': 'nearest', 'linear': 'linear', 'per-axis': ('nearest', 'linear'), 'per-axis-rev': ['linear', 'nearest'],
+                   'tuple-same': ('linear',) * sp.ndim}[c['interp']]
+            return odl.Resampling(sp, ran, interp=itp)
+        add('Resampling', _o(c, lab, 'interp', 'dir', 'range-bdry'), mk)
+    # ---- deformation operators
+    for c in _combos(tier, OD([('interp', ['default', 'nearest', 'linear', 'per-axis']), ('domain', ['default', 'given'])]),
+                     _space_axes(kinds=('discr',), shapes=('1d', '2d'), weightings=('none',), bdrys=('False', 'True')),
+                     lambda c: c['interp'] != 'per-axis' or c['shape'] == '2d'):
+        lab, sp = _sp(c, shapes=RS)
+        itp = {'default': None, 'nearest': 'nearest', 'linear': 'linear', 'per-axis': ('nearest', 'linear')}[c['interp']]
+        kw = {} if itp is None else {'interp': itp}
+
+        def mkt(sp=sp, c=c, kw=kw):
+            kw = dict(kw)
+            if c['domain'] == 'given':
+                kw['domain'] = sp.real_space.tangent_bundle
+            return odl.deform.LinDeformFixedTempl(vec(sp), **kw)
+
+        def mkd(sp=sp, c=c, kw=kw):
+            kw = dict(kw)
+            tb = sp.real_space.tangent_bundle
+            disp = tb.element([np.resize([0.125, 0.0, -0.125, 0.0625], sp.size).reshape(sp.shape)] * sp.ndim)
+            if c['domain'] == 'given' or not sp.is_real:
+                kw['templ_space'] = sp
+            return odl.deform.LinDeformFixedDisp(disp, **kw)
+        add('LinDeformFixedTempl', _o(c, lab, 'interp', 'domain'), mkt)
+        add('LinDeformFixedDisp', _o(c, lab, 'interp', 'domain'), mkd)
+    # ---- numerical differentiation
+    for c in _combos(tier, OD([('method', ['default', 'forward', 'backward', 'central']), ('step', ['default', 'given'])]),
+                     _space_axes(fields=('real',), shapes=('1d', '2d'))):
+        lab, sp = _sp(c)
+        kw = {} if c['method'] == 'default' else {'method': c['method']}
+        if c['step'] == 'given':
+            kw['step'] = 2.0 ** -8
+        add('NumericalDerivative', _o(c, lab, 'method', 'step'),
+            lambda sp=sp, kw=kw: S.NumericalDerivative(odl.PowerOperator(sp, 2), posvec(sp), **kw))
+        add('NumericalGradient', _o(c, lab, 'method', 'step'), lambda sp=sp, kw=kw: S.NumericalGradient(S.L2NormSquared(sp), **kw))
+    # ---- ray transform (skimage back-end): impl spellings, cache, projection space, dtypes, weighting of the volume
+    from odl.tomo.backends import SKIMAGE_AVAILABLE
+    if SKIMAGE_AVAILABLE:
+        from odl.tomo.backends.skimage_radon import SkImageImpl
+
+        def ray(c, adjoint=False):
+            dt = {('real', 'double'): 'float64', ('real', 'single'): 'float32', ('complex', 'double'): 'complex128',
+                  ('complex', 'single'): 'complex64'}[(c['field'], c['prec'])]
+            kw = {} if c['vol-weighting'] == 'default' else {'weighting': 1.0}
+            vol = odl.uniform_discr([-1, -1], [1, 1], [4, 4], dtype=dt, **kw)
+            geom = odl.tomo.parallel_beam_geometry(odl.uniform_discr([-1, -1], [1, 1], [4, 4]), num_angles={'3': 3, '2': 2}[c['angles']])
+            okw = {}
+            if c['impl'] == 'str':
+                okw['impl'] = 'skimage'
+            elif c['impl'] == 'str-upper':
+                okw['impl'] = 'SkImage'
+            elif c['impl'] == 'class':
+                okw['impl'] = SkImageImpl
+            elif c['impl'] == 'default':
+                pass                    # the only available back-end
+            if c['use_cache'] != 'default':
+                okw['use_cache'] = c['use_cache'] == 'True'
+            op = odl.tomo.RayTransform(vol, geom, **okw)
+            if c['proj_space'] == 'given':
+                op = odl.tomo.RayTransform(vol, geom, proj_space=op.range, **okw)
+            elif c['impl'] == 'instance':
+                op = odl.tomo.RayTransform(vol, geom, impl=SkImageImpl(geom, vol, op.range), **{k: v for k, v in okw.items() if k != 'impl'})
+            return op.adjoint if adjoint else op
+        for c in U.cross(tier, OD([('impl', ['str', 'str-upper', 'class', 'instance', 'default']), ('use_cache', ['default', 'True', 'False']),
+                                   ('proj_space', ['default', 'given']), ('field', ['real', 'complex']), ('prec', ['double', 'single']),
+                                   ('vol-weighting', ['default', 'none']), ('angles', ['3', '2'])]),
+                         lambda c: not (c['impl'] == 'instance' and c['proj_space'] == 'given')):
+            o = dict(c)
+            o['impl'] = 'skimage' if c['impl'] == 'str' else 'skimage-' + c['impl']
+            if c['field'] == 'complex':
+                o['dtype'] = 'complex'
+            add('RayTransform', o, lambda c=c: ray(c))
+            add('RayBackProjection', o, lambda c=c: ray(c, True))
+    # ---- ufunc operators on the other space axes (rn(3) and the scalar form are listed above)
+    import odl.ufunc_ops as UO
+    names = sorted(getattr(UO, '__all__', []))
+    unary = [n for n in names if n in ('sin', 'cos', 'exp', 'square', 'sqrt', 'log', 'absolute', 'sign', 'negative', 'conj', 'reciprocal',
+                                       'tanh', 'floor', 'isnan', 'modf', 'rint', 'arctan', 'expm1', 'logical_not', 'signbit')]
+    binary = [n for n in names if n in ('add', 'subtract', 'multiply', 'divide', 'maximum', 'minimum', 'power', 'arctan2', 'hypot', 'greater',
+                                        'equal', 'copysign', 'fmod', 'logaddexp', 'logical_and')]
+
+    def uf_ok(c):
+        if c['field'] == 'complex' and c['ufunc'] in ('floor', 'modf', 'rint', 'arctan', 'signbit', 'maximum', 'minimum', 'arctan2', 'hypot',
+                                                      'greater', 'copysign', 'fmod', 'logaddexp', 'sign', 'expm1'):
+            return False
+        return True
+    for c in _combos(tier, OD([('ufunc', unary)]), _space_axes(), uf_ok):
+        lab, sp = _sp(c)
+        add('ufunc_ops.' + c['ufunc'], _o(c, lab, form='op', **_single(c)), lambda sp=sp, n=c['ufunc']: getattr(UO, n)(sp))
+    for c in _combos(tier, OD([('ufunc', binary), ('arg', ['space', 'pspace'])]), _space_axes(), uf_ok):
+        lab, sp = _sp(c)
+        add('ufunc_ops.' + c['ufunc'], _o(c, lab, 'arg', form='op', **_single(c)),
+            lambda sp=sp, c=c: getattr(UO, c['ufunc'])(sp if c['arg'] == 'space' else odl.ProductSpace(sp, 2)))
+    for n in ('sin', 'square', 'exp', 'absolute', 'conj'):
+        add('ufunc_ops.' + n, {'form': 'func', 'field': 'complex'}, lambda n=n: getattr(UO, n)(odl.ComplexNumbers()))
+    for dt in ('int32', 'int8', 'uint8', 'bool'):
+        sp_ = odl.tensor_space(3, dtype=dt)
+        for n in ('bitwise_and', 'invert', 'left_shift', 'add', 'negative', 'absolute', 'logical_not', 'maximum'):
+            if hasattr(UO, n) and not (dt == 'bool' and n == 'negative'):      # NumPy rejects -bool
+                add('ufunc_ops.' + n, {'form': 'op', 'dtype': dt}, lambda n=n, sp_=sp_: getattr(UO, n)(sp_))
+    # ---- wavelet transforms without an adjoint (bi-orthogonal) and on odd sizes: call protocol only
+    if odl.trafos.PYWT_AVAILABLE:
+        for c in U.cross(tier, OD([('wavelet', ['bior1.3', 'rbio1.3', 'bior2.2']), ('pad_mode', ['constant', 'pywt_periodic', 'symmetric', 'periodic']),
+                                   ('nlevels', ['default', '1']), ('axes', ['default', 'last-neg']), ('shape', ['1d', '2d']),
+                                   ('field', ['real', 'complex']), ('prec', ['double', 'single'])])):
+            def mk(c=c, inverse=False):
+                dt = {('real', 'double'): 'float64', ('real', 'single'): 'float32', ('complex', 'double'): 'complex128',
+                      ('complex', 'single'): 'complex64'}[(c['field'], c['prec'])]
+                sp = odl.uniform_discr(0, 1, 12, dtype=dt) if c['shape'] == '1d' else odl.uniform_discr([0, 0], [1, 2], [2, 6], dtype=dt)
+                kw = {'pad_mode': c['pad_mode']}
+                if c['nlevels'] != 'default':
+                    kw['nlevels'] = 1
+                if c['axes'] != 'default':
+                    kw['axes'] = (-1,)
+                elif c['shape'] == '2d':
+                    kw['axes'] = (1,)
+                op = odl.trafos.WaveletTransform(sp, c['wavelet'], **kw)
+                return op.inverse if inverse else op
+            o = dict(c)
+            add('WaveletTransform', o, mk)
+            add('WaveletTransformInverse', o, lambda mk=mk: mk(inverse=True))
+    # ---- proximal factories (the C10 catalogue) under the full call protocol
+    for fam, opts, fn in proxcat.recipes(tier):
+        o = dict(opts)
+        if opts.get('dtype') in ('float32', 'complex64') or opts.get('prec') == 'single':
+            o['via'] = 'single-precision-direct'
+        add('factory.' + fam, o, fn)
 
 
 def _derived(group, fam, opts, fn):
     """Derived recipes of a base recipe: .adjoint, .adjoint.adjoint, .inverse, .derivative(x) where the operator offers them."""
     def mk(kind):
         def build():
+            res = build0()
+            if not isinstance(res, odl.Operator):
+                # e.g. ConstantOperator(0).adjoint returns None: reported by C05, nothing to call here
+                raise NotImplementedError('%s did not return an operator' % kind)
+            return res
+
+        def build0():
             op = fn()
             if kind == 'adjoint':
                 if not op.is_linear:
@@ -487,12 +741,12 @@ def extra_block_recipes():
     Cc = odl.MultiplyOperator(r2.element([1.0, -2.0]))
     D = odl.IdentityOperator(r2)
     R.append(('ProductSpaceOperator', {'blocks': 'full-2x2'}, lambda: odl.ProductSpaceOperator([[A, B], [Cc, D]])))
-    import scipy.sparse
+    from odl.util import COOMatrix
 
     def colmajor():
         ops = np.empty(4, dtype=object)
         ops[:] = [A, Cc, B, D]
-        m = scipy.sparse.coo_matrix((ops, ([0, 1, 0, 1], [0, 0, 1, 1])), shape=(2, 2))
+        m = COOMatrix(ops, ([0, 1, 0, 1], [0, 0, 1, 1]), (2, 2))
         return odl.ProductSpaceOperator(m, domain=odl.ProductSpace(r2, 2), range=odl.ProductSpace(r2, 2))
     R.append(('ProductSpaceOperator', {'blocks': 'coo-column-major'}, colmajor))
     R.append(('ProductSpaceOperator', {'blocks': 'nonlinear-2x2'},
@@ -505,22 +759,42 @@ def extra_block_recipes():
 
 
 def all_recipes(tier):
+    """-> [(group, family, options, builder)]: base recipes plus their derived forms (.adjoint, .adjoint.adjoint, .inverse,
+    .derivative(x)).  Quick tier: the recipes of the first catalogue version get all four derived forms, the systematic
+    (wide) recipes one form each, rotating, so that every class still meets every form several times."""
     base = []
-    for fam, opts, fn in L.recipes(tier):
+    wide = set()
+    lin = L.recipes(tier)
+    for i, (fam, opts, fn) in enumerate(lin):
+        if i >= getattr(L.recipes, 'n_first', len(lin)):
+            wide.add(len(base))
         base.append(('lin', fam, opts, fn))
-    for fam, opts, fn in NL.recipes(tier):
+    nl = NL.recipes(tier)
+    for i, (fam, opts, fn) in enumerate(nl):
+        if i >= getattr(NL.recipes, 'n_first', len(nl)):
+            wide.add(len(base))
         base.append(('nl', fam, opts, lambda fn=fn: fn()[0]))
     for fam, opts, fn in functional_recipes(tier):
         base.append(('fn', fam, opts, fn))
-    for fam, opts, fn in other_recipes():
+    oth = other_recipes(tier)
+    for i, (fam, opts, fn) in enumerate(oth):
+        if i >= getattr(other_recipes, 'n_first', len(oth)):
+            wide.add(len(base))
         base.append(('misc', fam, opts, fn))
     for fam, opts, fn in extra_block_recipes():
         base.append(('misc', fam, opts, fn))
     out = list(base)
-    for group, fam, opts, fn in base:
-        if group == 'fn' or fam.startswith('ufunc_ops.'):
-            continue
-        out.extend(_derived(group, fam, opts, fn))
+    rot = {}
+    for k, (group, fam, opts, fn) in enumerate(base):
+        if group == 'fn' or fam.startswith('ufunc_ops.') or fam.startswith('factory.'):
+            continue            # functionals carry their own derived forms; ufunc / proximal operators offer none
+        der = _derived(group, fam, opts, fn)
+        if tier == 'quick' and k in wide and len(der) > 1:
+            kinds = ('derivative', 'inverse') if group == 'nl' else ('adjoint', 'inverse', 'adjoint.adjoint')
+            r = rot.get(fam, 0)
+            rot[fam] = r + 1
+            der = [d for d in der if d[2]['via'] == kinds[r % len(kinds)]]
+        out.extend(der)
     return out
 
 
